@@ -120,6 +120,7 @@ func runC04(c *core.Ctx) {
 	c.Rule("R04.4", "symlink destinations compared/created modulo FromSlash only")
 	ruleShortSizeIsShort(c, "R04.5")
 	ruleSignedHashesAreComputed(c, "R04.6")
+	ruleCopyWritesWhatItRead(c, "R01.6")
 
 	// ---- R04.1
 	type sib struct {
